@@ -374,6 +374,20 @@ def check_vec(o):
     lm_sh = [p for p in shared(r2, s) if "points" not in p[0] or "_landmarks" in p[0]]
     if lm_sh:
         bad.append(("from_vector result shares memory with the receiver", {"paths": lm_sh[:3]}, None))
+    # the same vector handed over in other layouts / number types: a strided view, a read-only array, float32, whole numbers as ints
+    strided = np.repeat(ov, 2)[::2]
+    ro = ov.copy()
+    ro.setflags(write=False)
+    for name, vec, tol in (("a strided view", strided, 0.0), ("a read-only array", ro, 0.0), ("float32", ov.astype(np.float32), 1e-5)):
+        r4 = s.from_vector(vec)
+        if not np.allclose(np.asarray(r4.points, dtype=float), np.asarray(r2.points, dtype=float), atol=tol, rtol=0) or same(_struct_tree(s), _struct_tree(r4)):
+            bad.append(("from_vector given %s does not give the same object as from_vector of the plain array" % name, {}, None))
+    iv = np.round(ov * 4.0)
+    r5f, r5i = s.from_vector(iv.copy()), s.from_vector(iv.astype(np.int64))
+    if not np.array_equal(np.asarray(r5i.points, dtype=float), np.asarray(r5f.points, dtype=float)):
+        bad.append(("from_vector given whole numbers as an int64 array differs from the same numbers as floats", {}, None))
+    if same(s0, state(s)):
+        bad.append(("from_vector (other layouts) changed the receiver: " + same(s0, state(s)), {}, None))
     # wrong lengths
     n = want.shape[0]
     for ln in [0, d, n - d, n - 1, n + 1, n + d, 2 * n]:
